@@ -169,11 +169,17 @@ def asset_term(a, spec, G='G'):
         step_units = freq_td_(g['freq']) / freq_td_(g.get('unit', 'h'))
         st = lambda v: C.nat(int(math.ceil((v or 0) / step_units - 1e-12)))
         opt_s = lambda v: 'None' if v is None else '(Some %s)' % C.s(v)
-        if a.get('ramp_freq') not in (None, g['freq']) and (a.get('start_ramp_lower_bounds') or a.get('shutdown_ramp_lower_bounds')):
-            raise ValueError('profile in another frequency than the grid (interpolation not modelled)')
         srl = a.get('start_ramp_lower_bounds') or []
         sdl = a.get('shutdown_ramp_lower_bounds') or []
-        prof = ' '.join(C.qvec([float(v) for v in w]) for w in (srl, a.get('start_ramp_upper_bounds') or srl, sdl, a.get('shutdown_ramp_upper_bounds') or sdl))
+        rf = a.get('ramp_freq') or g.get('unit', 'h')
+        if rf != g['freq'] and (srl or sdl):
+            # profile in another frequency than the grid's: Ramp.convert_ramp; ct = grid step in profile steps (exact ratio)
+            from fractions import Fraction
+            ct = Fraction(int(freq_td_(g['freq']).total_seconds()), int(freq_td_(rf).total_seconds()))
+            pv = lambda w: '(convert_ramp %s (%d # %d))' % (C.qvec([float(v) for v in w]), ct.numerator, ct.denominator) if w else '[]'
+        else:
+            pv = lambda w: C.qvec([float(v) for v in w])
+        prof = ' '.join(pv(w) for w in (srl, a.get('start_ramp_upper_bounds') or srl, sdl, a.get('shutdown_ramp_upper_bounds') or sdl))
         pp = '(Build_plant_p %s %s %s %s %s %s %s %s %s %s %s %s %s %s %s %s ' % (
             opt_s(heat), opt_s(fuel), 'None' if a.get('ramp') is None else '(Some %s)' % C.q(float(a['ramp'])), C.q(float(a.get('last_dispatch', 0.0))),
             param_term(a.get('start_costs', 0.0), spec, g), param_term(a.get('running_costs', 0.0), spec, g),
